@@ -151,6 +151,9 @@ def run(ctx):
                     viol.append({"what": "a header built through the mapping API serialises to an ill-framed block: " + "; ".join(errs),
                                  "input": {"version": v, "id": bid, "data": data, "entry_point_style": style, "insertion": ins},
                                  "expected": "framing rules", "observed": kbt[:100]})
+    # the whole mapping API of Blocks against Model/BlocksApi.v (api_run), outcome by outcome, plus the invariant
+    from harness.props import blocks_api
+    dist["mapping_api_sequences"] = blocks_api.check(ctx, viol, diffs, dist)
     # model: the same str / wrap (with recovered tape) must produce the same text
     ops_cases = [(c["kbpk"], t.setup_ops(c) + [("S",), ("W", c["key"], c["mask"])]) for c in cases]
     fake = []
@@ -197,7 +200,7 @@ def run(ctx):
                     viol.append({"what": "header string after a version switch is not a multiple of the block size",
                                  "input": {"ops": [core.op_token(x)[:100] for x in ops]}, "expected": t.BS[ver], "observed": txt[:80]})
     dist["version_switch_sequences"] = len(seqs)
-    return {"evaluations": len(cases) + len(seqs), "distinct_nontrivial": len(seen), "samples": samples, "distribution": dist,
+    return {"evaluations": len(cases) + len(seqs) + dist.get("mapping_api_sequences", 0), "distinct_nontrivial": len(seen), "samples": samples, "distribution": dist,
             "diffs": diffs, "violations": viol,
             "rule": "versions x block data lengths over every residue of the block size and around 251/252, 97..100 blocks, "
                     "totals near 9999, random layouts x key lengths x masks; each emitted block checked against the framing "
